@@ -1,7 +1,7 @@
 (* C19: the NAME law (every path the reader stores / outputs and every path of every event is the watched
    root followed by real, valid entry names) and the TYPE law (typed transcription of queue_events). *)
 Require Import WD.Base.Prelude WD.Base.BStr WD.Model.SubEvents WD.Proofs.SubEventsProofs
-               WD.Model.Emitter WD.Model.PathTypes.
+               WD.Model.Emitter WD.Model.Fs WD.Model.Reader WD.Model.PathTypes.
 
 (* ================================================================== byte-string lemmas *)
 Definition nosep (n : bytes) : Prop := forall x, In x n -> N.eqb x sep = false.
@@ -531,3 +531,328 @@ Proof.
   assert (Ht : pv_tag v = pv_tag wp) by (destruct Hv as [->| ->]; [now apply Hs | now apply Hd]).
   rewrite pjoins_tagged, joins_suffix by assumption. rewrite <- Hb, <- Ht. symmetry. apply tagged_eta.
 Qed.
+
+(* ================================================================== the reader invariant *)
+Section AssocLemmas.
+  Context {K V : Type} (keq : K -> K -> bool).
+
+  Lemma in_aset (k : K) (v : V) (m : list (K * V)) (a : K) (b : V) :
+    In (a, b) (aset keq k v m) -> In (a, b) m \/ (b = v /\ (a = k \/ keq k a = true)).
+  Proof.
+    induction m as [|[k' v'] m IH]; simpl; intros H.
+    - destruct H as [H|[]]. inversion H; subst. right. split; [reflexivity | left; reflexivity].
+    - destruct (keq k k') eqn:E; simpl in H.
+      + destruct H as [H|H]; [inversion H; subst; right; split; [reflexivity | right; exact E] | left; right; exact H].
+      + destruct H as [H|H]; [left; left; exact H|]. destruct (IH H) as [H'|H']; [left; right; exact H' | right; exact H'].
+  Qed.
+
+  Lemma in_aremove k (m : list (K * V)) x : In x (aremove keq k m) -> In x m.
+  Proof.
+    induction m as [|[k' v'] m IH]; simpl; intros H; [exact H|].
+    destruct (keq k k'); [right; now apply IH|]. destruct H as [H|H]; [left; exact H | right; now apply IH].
+  Qed.
+
+  Lemma alookup_in (k : K) (m : list (K * V)) (v : V) : alookup keq k m = Some v -> exists k', In (k', v) m /\ keq k k' = true.
+  Proof.
+    induction m as [|[k' v'] m IH]; simpl; intros H; [discriminate|].
+    destruct (keq k k') eqn:E.
+    - inversion H; subst. exists k'. split; [left; reflexivity | exact E].
+    - destruct (IH H) as [k'' [Hin Hk]]. exists k''. split; [right; exact Hin | exact Hk].
+  Qed.
+End AssocLemmas.
+
+Lemma wf_tree_intro ds fs :
+  forallb valid_name fs = true ->
+  Forall (fun d => valid_name (fst d) = true /\ wf_tree (snd d) = true) ds ->
+  wf_tree (Node ds fs) = true.
+Proof.
+  intros Hf Hd. cbn [wf_tree]. rewrite Hf. cbn [andb].
+  induction Hd as [|[n s] ds [Hn Hs] _ IH]; [reflexivity|]. cbn [fst snd] in *. now rewrite Hn, Hs, IH.
+Qed.
+
+Lemma content_fuel_wf t : fs_names_ok t -> forall fuel d, wf_tree (content_fuel fuel t d) = true.
+Proof.
+  intros Hok fuel. induction fuel as [|k IH]; intros d; [reflexivity|].
+  cbn [content_fuel]. apply wf_tree_intro.
+  - apply forallb_forall. intros n Hn. apply in_map_iff in Hn as [e [<- He]].
+    apply filter_In in He as [He _]. now apply Hok.
+  - apply Forall_forall. intros x Hx. apply in_map_iff in Hx as [e [<- He]].
+    apply filter_In in He as [He _]. cbn [fst snd]. split; [now apply Hok | apply IH].
+Qed.
+
+Lemma content_wf t d : fs_names_ok t -> wf_tree (content t d) = true.
+Proof. intros H. unfold content. destruct (fisdir d t); [now apply content_fuel_wf | reflexivity]. Qed.
+
+Section ReaderInv.
+  Variable C : cfg.
+  Hypothesis Hne : c_root C <> [].
+  Hypothesis Hsep : last_is_sep (c_root C) = false.
+  Notation root := (c_root C).
+
+  Record PathInv (r : rstate) : Prop := mkPI {
+    pi_pfw : forall wd p, In (wd, p) (pfw r) -> rooted root p;
+    pi_wfp : forall p wd, In (p, wd) (wfp r) -> rooted root p;
+    pi_mvf : forall c p, In (c, p) (mvf r) -> rooted root p }.
+
+  Lemma pathinv_init : PathInv rinit0.
+  Proof. constructor; intros ? ? []. Qed.
+
+  Lemma raw_ok_rooted x : raw_ok root x -> rooted root (r_path x).
+  Proof. intros [H|[H _]]; [now apply below_rooted | exact H]. Qed.
+
+  Lemma bump_inv r : PathInv r -> PathInv (bump r).
+  Proof. intros [H1 H2 H3]. constructor; assumption. Qed.
+
+  Lemma add_watch_inv r k t p r' k' wd :
+    PathInv r -> rooted root p -> add_watch C r k t p = Some (r', k', wd) -> PathInv r'.
+  Proof.
+    intros [H1 H2 H3] Hp H. unfold add_watch in H.
+    destruct (mem_nat (calls r) (c_faults C)); [discriminate|].
+    destruct (kadd_watch k t p (c_mask C)) as [[k1 w1]|]; [|discriminate].
+    inversion H; subst; clear H. constructor; cbn.
+    - intros wd0 p0 Hin. apply in_aset in Hin as [Hin|[-> _]]; eauto.
+    - intros p0 wd0 Hin. apply in_aset in Hin as [Hin|[_ [->|E]]]; eauto.
+      apply beqb_eq in E. now subst.
+    - exact H3.
+  Qed.
+
+  Lemma walk_rooted t : forall p r ds fs,
+    rooted root p -> wf_tree t = true -> In (r, ds, fs) (walk p t) ->
+    rooted root r /\ forallb valid_name ds = true /\ forallb valid_name fs = true.
+  Proof.
+    induction t as [dl fl IH] using tree_ind'. intros p r ds fs Hp Hwf Hin.
+    apply wf_tree_node in Hwf as [Hfs Hds]. cbn [walk] in Hin. destruct Hin as [Hin|Hin].
+    - inversion Hin; subst. split; [exact Hp|]. split; [|exact Hfs].
+      apply forallb_forall. intros n Hn. apply in_map_iff in Hn as [d [<- Hd]].
+      rewrite Forall_forall in Hds. now destruct (Hds _ Hd).
+    - induction dl as [|[n s] dl IHdl]; [contradiction|].
+      inversion IH as [|? ? IHs IHrest]; subst. inversion Hds as [|? ? [Hn Hs] Hds']; subst.
+      cbn [fst snd] in *. apply in_app_iff in Hin as [Hin|Hin].
+      + eapply IHs; [| exact Hs | exact Hin]. now apply join_rooted.
+      + now apply IHdl.
+  Qed.
+
+  Lemma walk_dirs_rooted t p q :
+    fs_names_ok t -> rooted root p -> In q (walk_dirs t p) -> rooted root q.
+  Proof.
+    intros Hok Hp Hin. unfold walk_dirs in Hin. apply in_flat_map in Hin as [[[r ds] fs] [Hw Hin]].
+    apply walk_rooted in Hw as [Hr [Hds _]]; [| exact Hp | now apply content_wf].
+    apply in_map_iff in Hin as [d [<- Hd]]. apply join_rooted; try assumption.
+    rewrite forallb_forall in Hds. now apply Hds.
+  Qed.
+
+  Lemma sim_dirs_inv t rt : rooted root rt -> forall ds r k acc r' k' acc',
+    forallb valid_name ds = true -> PathInv r -> Forall (raw_ok root) acc ->
+    sim_dirs C r k t rt ds acc = (r', k', acc') -> PathInv r' /\ Forall (raw_ok root) acc'.
+  Proof.
+    intros Hrt. induction ds as [|d ds IH]; intros r k acc r' k' acc' Hv Hi Ha H; cbn [sim_dirs] in H.
+    - inversion H; subst. split; assumption.
+    - apply forallb_valid_cons in Hv as [Hd Hv].
+      destruct (add_watch C r k t (join rt d)) as [[[r1 k1] wd]|] eqn:E.
+      + eapply IH; [exact Hv | | | exact H].
+        * eapply add_watch_inv; [exact Hi | | exact E]. now apply join_rooted.
+        * apply Forall_app. split; [exact Ha|]. constructor; [|constructor]. left. cbn. now apply join_below.
+      + exact (IH (bump r) k acc r' k' acc' Hv (bump_inv _ Hi) Ha H).
+  Qed.
+
+  Lemma sim_files_inv r rt : rooted root rt -> forall fl acc acc',
+    forallb valid_name fl = true -> Forall (raw_ok root) acc ->
+    sim_files C r rt fl acc = Done acc' -> Forall (raw_ok root) acc'.
+  Proof.
+    intros Hrt. induction fl as [|f fl IH]; intros acc acc' Hv Ha H; cbn [sim_files] in H.
+    - now inversion H; subst.
+    - apply forallb_valid_cons in Hv as [Hf Hv].
+      destruct (alookup beqb (dirname (join rt f)) (wfp r)).
+      + eapply IH; [exact Hv | | exact H].
+        apply Forall_app. split; [exact Ha|]. constructor; [|constructor]. left. cbn. now apply join_below.
+      + destruct (c_fix_simulate C); [|discriminate]. eapply IH; [exact Hv | exact Ha | exact H].
+  Qed.
+
+  Lemma simulate_inv t : forall w r k acc r' k' acc',
+    (forall rt ds fl, In (rt, ds, fl) w ->
+       rooted root rt /\ forallb valid_name ds = true /\ forallb valid_name fl = true) ->
+    PathInv r -> Forall (raw_ok root) acc ->
+    simulate C r k t w acc = Done (r', k', acc') -> PathInv r' /\ Forall (raw_ok root) acc'.
+  Proof.
+    induction w as [|[[rt ds] fl] w IH]; intros r k acc r' k' acc' Hw Hi Ha H; cbn [simulate] in H.
+    - inversion H; subst. split; assumption.
+    - destruct (Hw rt ds fl (or_introl eq_refl)) as [Hrt [Hds Hfl]].
+      destruct (sim_dirs C r k t rt ds acc) as [[r1 k1] acc1] eqn:E1.
+      destruct (sim_dirs_inv t rt Hrt ds r k acc r1 k1 acc1 Hds Hi Ha E1) as [Hi1 Ha1].
+      destruct (sim_files C r1 rt fl acc1) as [acc2|] eqn:E2; [|discriminate].
+      eapply IH; [| exact Hi1 | | exact H].
+      + intros ? ? ? Hin. apply Hw. right. exact Hin.
+      + eapply sim_files_inv; [exact Hrt | exact Hfl | exact Ha1 | exact E2].
+  Qed.
+
+  (* the C14 re-key: a key src/rest becomes dst/rest, still rooted *)
+  Lemma rekey_rooted src dst p :
+    rooted root src -> rooted root dst -> rooted root p -> starts (src ++ [sep]) p = true ->
+    rooted root (replace_first src dst p).
+  Proof.
+    intros Hs Hd Hp Hst. apply starts_spec in Hst as [rest ->]. rewrite <- app_assoc. cbn [app].
+    rewrite <- app_assoc in Hp. cbn [app] in Hp.
+    rewrite replace_first_prefix by (eapply rooted_ne; eauto).
+    destruct Hs as [rs [Hrs ->]]. destruct Hd as [rd [Hrd ->]]. destruct Hp as [rp [Hrp Hp]].
+    rewrite <- app_assoc in Hp. apply app_inv_head in Hp.
+    destruct (relsuffix_parse rs rp rest Hrs Hrp Hp) as [c [-> Hc]].
+    apply forallb_valid_app in Hrp as [_ Hcv].
+    exists (rd ++ c). split; [apply forallb_valid_app; split; assumption|].
+    rewrite relsuffix_app, Hc. now rewrite <- app_assoc.
+  Qed.
+
+  Lemma rekey_loop_inv src dst : rooted root src -> rooted root dst ->
+    forall keys r, PathInv r -> PathInv (rekey_loop keys src dst r).
+  Proof.
+    intros Hs Hd. induction keys as [|[p w] keys IH]; intros r Hi; cbn [rekey_loop]; [exact Hi|].
+    destruct (starts (src ++ [sep]) p) eqn:Est; [|now apply IH].
+    destruct (alookup beqb p (wfp r)) as [wd|] eqn:El; [|now apply IH].
+    apply IH. destruct Hi as [H1 H2 H3].
+    apply alookup_in in El as [p' [Hin Hk]]. apply beqb_eq in Hk. subst p'.
+    assert (Hnp : rooted root (replace_first src dst p)) by (apply rekey_rooted; eauto).
+    constructor; cbn.
+    - intros wd0 p0 Hin0. apply in_aset in Hin0 as [Hin0|[-> _]]; eauto.
+    - intros p0 wd0 Hin0. apply in_aset in Hin0 as [Hin0|[_ [->|E]]].
+      + apply in_aremove in Hin0. eauto.
+      + exact Hnp.
+      + apply beqb_eq in E. now subst.
+    - exact H3.
+  Qed.
+
+  Lemma add_dirs_inv t : forall ps r k r' k',
+    (forall p, In p ps -> rooted root p) -> PathInv r ->
+    add_dirs C r k t ps = (r', k') -> PathInv r'.
+  Proof.
+    induction ps as [|p ps IH]; intros r k r' k' Hps Hi H; cbn [add_dirs] in H.
+    - now inversion H; subst.
+    - destruct (add_watch C r k t p) as [[[r1 k1] wd]|] eqn:E.
+      + eapply IH; [| | exact H]; [intros q Hq; apply Hps; right; exact Hq|].
+        eapply add_watch_inv; [exact Hi | | exact E]. apply Hps. left. reflexivity.
+      + inversion H; subst. now apply bump_inv.
+  Qed.
+
+  Lemma noparent_not_moved_to m : noparent m = true -> is_moved_to m = false.
+  Proof.
+    unfold noparent. intros H. repeat (apply andb_true_iff in H as [H ?]). now apply negb_true_iff in H.
+  Qed.
+
+  Lemma read_one_inv t r k acc e r' k' acc' :
+    fs_names_ok t -> PathInv r -> Forall (raw_ok root) acc -> kraw_ok e ->
+    read_one C t (r, k, acc) e = Done (r', k', acc') -> PathInv r' /\ Forall (raw_ok root) acc'.
+  Proof.
+    intros Hfs Hi Ha He H. unfold read_one in H.
+    destruct (alookup N.eqb (k_wd e) (pfw r)) as [wd_path|] eqn:Ewd; [|discriminate].
+    assert (Hwd : rooted root wd_path).
+    { apply alookup_in in Ewd as [wd' [Hin _]]. eapply pi_pfw; eauto. }
+    set (src_path := match k_name e with [] => wd_path | _ :: _ => join wd_path (k_name e) end) in *.
+    assert (Hsrc : rooted root src_path).
+    { unfold src_path. destruct He as [Hv|[-> _]]; [|exact Hwd].
+      destruct (k_name e) eqn:En; [discriminate|]. rewrite <- En in *. now apply join_rooted. }
+    set (ev := {| r_wd := k_wd e; r_mask := k_mask e; r_cookie := k_cookie e; r_name := k_name e;
+                  r_path := src_path |}) in *.
+    assert (Hev : raw_ok root ev).
+    { unfold raw_ok, ev, src_path. cbn. destruct He as [Hv|[-> Hnp]].
+      - left. destruct (k_name e) eqn:En; [discriminate|]. rewrite <- En in *. now apply join_below.
+      - right. split; assumption. }
+    match type of H with context [match ?X with pair _ _ => _ end] => destruct X as [[r1 k1] ev1] eqn:EX end.
+    assert (H1 : PathInv r1 /\ raw_ok root ev1).
+    { destruct (is_moved_from (k_mask e)).
+      - inversion EX; subst; clear EX. split; [|exact Hev]. destruct Hi as [P1 P2 P3]. constructor; cbn; eauto.
+        intros c p Hin. apply in_aset in Hin as [Hin|[-> _]]; eauto.
+      - destruct (is_moved_to (k_mask e)) eqn:Emt; [|inversion EX; subst; split; assumption].
+        set (ev' := {| r_wd := k_wd e; r_mask := k_mask e; r_cookie := k_cookie e; r_name := k_name e;
+                       r_path := join wd_path (k_name e) |}) in *.
+        assert (Hev' : raw_ok root ev').
+        { left. cbn. destruct He as [Hv|[_ Hnp]]; [now apply join_below|].
+          apply noparent_not_moved_to in Hnp. congruence. }
+        assert (Hdirs : forall r0 k0, add_dirs C r k t (src_path :: walk_dirs t src_path) = (r0, k0) -> PathInv r0).
+        { intros r0 k0 Had. eapply add_dirs_inv; [| exact Hi | exact Had].
+          intros p [<-|Hp]; [exact Hsrc | eapply walk_dirs_rooted; eauto]. }
+        destruct (alookup N.eqb (k_cookie e) (mvf r)) as [msrc|] eqn:Emv.
+        + destruct (alookup beqb msrc (wfp r)) as [mwd|] eqn:Emw.
+          * inversion EX; subst; clear EX. split; [|exact Hev'].
+            assert (Hms : rooted root msrc).
+            { apply alookup_in in Emv as [c' [Hin _]]. eapply pi_mvf; eauto. }
+            assert (Hi' : PathInv {| wfp := aset beqb src_path mwd (aremove beqb msrc (wfp r));
+                                     pfw := aset N.eqb mwd src_path (pfw r); mvf := mvf r; calls := calls r |}).
+            { destruct Hi as [P1 P2 P3]. constructor; cbn.
+              - intros wd0 p0 Hin0. apply in_aset in Hin0 as [Hin0|[-> _]]; eauto.
+              - intros p0 wd0 Hin0. apply in_aset in Hin0 as [Hin0|[_ [->|E]]].
+                + apply in_aremove in Hin0. eauto.
+                + exact Hsrc.
+                + apply beqb_eq in E. now subst.
+              - exact P3. }
+            destruct (c_recursive C); [now apply rekey_loop_inv | exact Hi'].
+          * destruct (c_fix_movein C && c_recursive C && is_directory (k_mask e) && fisdir src_path t).
+            -- destruct (add_dirs C r k t (src_path :: walk_dirs t src_path)) as [r0 k0] eqn:Ead.
+               inversion EX; subst. split; [eapply Hdirs; eauto | exact Hev'].
+            -- inversion EX; subst. split; assumption.
+        + destruct (c_fix_movein C && c_recursive C && is_directory (k_mask e) && fisdir src_path t).
+          * destruct (add_dirs C r k t (src_path :: walk_dirs t src_path)) as [r0 k0] eqn:Ead.
+            inversion EX; subst. split; [eapply Hdirs; eauto | exact Hev'].
+          * inversion EX; subst. split; assumption. }
+    destruct H1 as [Hi1 Hev1]. clear EX.
+    match type of H with
+    | context [match ?X with Done _ => _ | Crash s => Crash s end] => destruct X as [r2|] eqn:E2; [|discriminate]
+    end.
+    assert (Hi2 : PathInv r2).
+    { destruct (is_ignored (k_mask e)); [|inversion E2; subst; exact Hi1].
+      destruct (alookup N.eqb (k_wd e) (pfw r1)) as [path|]; [|discriminate].
+      assert (Hrp : PathInv {| wfp := wfp r1; pfw := aremove N.eqb (k_wd e) (pfw r1); mvf := mvf r1; calls := calls r1 |}).
+      { destruct Hi1 as [P1 P2 P3]. constructor; cbn; eauto. intros wd0 p0 Hin0. apply in_aremove in Hin0. eauto. }
+      cbn [wfp pfw mvf calls] in E2.
+      destruct (alookup beqb path (wfp r1)) as [w|].
+      - destruct (N.eqb w (k_wd e)); inversion E2; subst; [|exact Hrp].
+        destruct Hrp as [P1 P2 P3]. constructor; cbn in *; eauto. intros p0 wd0 Hin0. apply in_aremove in Hin0. eauto.
+      - destruct (c_fix_ignored C); [|discriminate]. inversion E2; subst. exact Hrp. }
+    assert (Hacc2 : Forall (raw_ok root) (acc ++ [ev1])).
+    { apply Forall_app. split; [exact Ha | constructor; [exact Hev1 | constructor]]. }
+    destruct (c_recursive C && is_directory (k_mask e) && is_create (k_mask e)).
+    - destruct (add_watch C r2 k1 t (r_path ev1)) as [[[r3 k3] wd3]|] eqn:Eaw.
+      + eapply simulate_inv; [| | exact Hacc2 | exact H].
+        * intros rt ds fl Hin. eapply walk_rooted; [| | exact Hin]; [now apply raw_ok_rooted | now apply content_wf].
+        * eapply add_watch_inv; [exact Hi2 | | exact Eaw]. now apply raw_ok_rooted.
+      + inversion H; subst. split; [now apply bump_inv | exact Hacc2].
+    - inversion H; subst. split; assumption.
+  Qed.
+
+  Theorem read_batch_inv t : forall b r k acc r' k' acc',
+    fs_names_ok t -> PathInv r -> Forall (raw_ok root) acc -> Forall kraw_ok b ->
+    read_batch C t (r, k, acc) b = Done (r', k', acc') -> PathInv r' /\ Forall (raw_ok root) acc'.
+  Proof.
+    induction b as [|e b IH]; intros r k acc r' k' acc' Hfs Hi Ha Hb H; cbn [read_batch] in H.
+    - inversion H; subst. split; assumption.
+    - inversion Hb as [|? ? He Hb']; subst.
+      destruct (read_one C t (r, k, acc) e) as [[[r1 k1] acc1]|] eqn:E; [|discriminate].
+      destruct (read_one_inv _ _ _ _ _ _ _ _ Hfs Hi Ha He E) as [Hi1 Ha1].
+      eapply IH; eauto.
+  Qed.
+
+  Theorem construct_inv k t r' k' :
+    fs_names_ok t -> construct C k t = Some (r', k') -> PathInv r'.
+  Proof.
+    intros Hfs H. unfold construct in H. destruct (fisdir root t); [|discriminate].
+    destruct (add_watch C rinit0 k t root) as [[[r1 k1] wd]|] eqn:E; [|discriminate].
+    assert (Hi1 : PathInv r1).
+    { eapply add_watch_inv; [apply pathinv_init | | exact E]. now apply rooted_root. }
+    destruct (c_recursive C); [|inversion H; subst; exact Hi1].
+    assert (Hps : forall p, In p (walk_dirs t root) -> rooted root p).
+    { intros p Hp. eapply walk_dirs_rooted; eauto. now apply rooted_root. }
+    clear E. revert r1 k1 Hi1 H Hps. generalize (walk_dirs t root) as ps.
+    induction ps as [|p ps IH]; intros r1 k1 Hi1 H Hps.
+    - inversion H; subst. exact Hi1.
+    - destruct (add_watch C r1 k1 t p) as [[[r2 k2] wd2]|] eqn:E2; [|discriminate].
+      eapply IH; [| exact H |]; [|intros q Hq; apply Hps; right; exact Hq].
+      eapply add_watch_inv; [exact Hi1 | | exact E2]. apply Hps. left. reflexivity.
+  Qed.
+
+  (* consequence: every InotifyEvent the reader outputs has a rooted src_path *)
+  Corollary raw_paths t b r k r' k' out :
+    fs_names_ok t -> PathInv r -> Forall kraw_ok b ->
+    read_batch C t (r, k, []) b = Done (r', k', out) -> forall x, In x out -> rooted root (r_path x).
+  Proof.
+    intros Hfs Hi Hb H x Hx.
+    destruct (read_batch_inv t b r k [] r' k' out Hfs Hi (Forall_nil _) Hb H) as [_ Ho].
+    rewrite Forall_forall in Ho. apply raw_ok_rooted. now apply Ho.
+  Qed.
+End ReaderInv.
